@@ -647,6 +647,8 @@ def _prim_tabulate(ctx) -> None:
     wd_cases = [(y, mo, d) for y in list(range(1, 2801, 7 if deep else 23)) + [9999] for mo in range(1, 13) for d in (1, 28, calendar.monthrange(y, mo)[1])]
     for y in (range(1900, 2101) if deep else (1999, 2000, 2001, 2024)):
         wd_cases += [(y, mo, d) for mo in range(1, 13) for d in range(1, calendar.monthrange(y, mo)[1] + 1)]
+    for y in (100, 200, 300, 400, 500, 1700, 1800, 1900, 2000, 2100, 2200, 2300, 2400, 9900):      # century years: where the /100 and /400 terms of the day count switch
+        wd_cases += [(y, 1, 1), (y, 1, 31), (y, 2, 1), (y, 2, calendar.monthrange(y, 2)[1]), (y, 3, 1), (y, 12, 31), (y - 1, 12, 31), (y + 1, 1, 1)]
     if deep:
         wd_cases += [(y, mo, 1) for y in range(1, 10000) for mo in (1, 2, 3, 12)]
     tab("week_day", wd_cases, lambda y, mo, d: _dt.date(y, mo, d).isoweekday(), lambda a: f"week_day{a}")
@@ -741,6 +743,8 @@ def _rs_prim_tabulate(ctx, mir) -> None:
     wd_cases = [(y, mo, d) for y in list(range(1, 2801, 7 if deep else 23)) + [9999] for mo in range(1, 13) for d in (1, 28, calendar.monthrange(y, mo)[1])]
     for y in (range(1900, 2101) if deep else (1999, 2000, 2001, 2024)):
         wd_cases += [(y, mo, d) for mo in range(1, 13) for d in range(1, calendar.monthrange(y, mo)[1] + 1)]
+    for y in (100, 200, 300, 400, 500, 1700, 1800, 1900, 2000, 2100, 2200, 2300, 2400, 9900):      # century years: where the /100 and /400 terms of the day count switch
+        wd_cases += [(y, 1, 1), (y, 1, 31), (y, 2, 1), (y, 2, calendar.monthrange(y, 2)[1]), (y, 3, 1), (y, 12, 31), (y - 1, 12, 31), (y + 1, 1, 1)]
     for nm, cases, want in (("helpers::is_leap", [(y,) for y in years], lambda y: calendar.isleap(y)),
                             ("helpers::days_in_year", [(y,) for y in years], lambda y: 366 if calendar.isleap(y) else 365),
                             ("helpers::is_long_year", [(y,) for y in years], lambda y: _dt.date(y, 12, 28).isocalendar()[1] == 53),
